@@ -4,6 +4,7 @@ from . import dm14sim, common as C
 from .gen21 import can_id
 
 KEYFN = lambda s: ((s * 40503) ^ 0x5A5A) & 0xFFFF
+SEED_KEY_FFFF, SEED_KEY_0000 = 0xd03, 0x7b76        # seeds whose right key is 0xFFFF / 0x0000
 READ, WRITE = 1, 2
 
 
@@ -141,7 +142,7 @@ def idle_check(W):
 # ------------------------------------------------------------------------------------------------ C17
 def c17_case(rng):
     seedkey = rng.random() < 0.5
-    W = make_world(rng, seedkey, seeds=(lambda r: r.choice([1, 2, 0xBEEF, 0xFFFE, 0, r.randrange(1, 0xFFFF)])))
+    W = make_world(rng, seedkey, seeds=(lambda r: r.choice([1, 2, 0xBEEF, 0xFFFE, 0, SEED_KEY_FFFF, SEED_KEY_0000, r.randrange(1, 0xFFFF)])))
     bad, descs = [], []
     for _ in range(rng.choice([1, 1, 2, 3, 4])):
         t = Tx(rng, seedkey)
@@ -168,7 +169,7 @@ def c18_case(rng):
     def client_key(s):
         k = KEYFN(s)
         return (k + delta) & 0xFFFF if mode['wrong'] else k
-    seeds = lambda r: r.choice([0, 1, 0xFFFE, 0xBEEF, r.randrange(0, 0xFFFF)])
+    seeds = lambda r: r.choice([0, 1, 0xFFFE, 0xBEEF, SEED_KEY_FFFF, SEED_KEY_0000, SEED_KEY_FFFF, r.randrange(0, 0xFFFF)])
     W = make_world(rng, seedkey, seeds=seeds, client_key=client_key if seedkey else None)
     b = W.nodes[1]
     bad, descs = [], []
